@@ -437,7 +437,7 @@ func (w *world) emit(op, res string, nontrivial bool) {
 
 // failPool records a property failure of the current pool session with a minimised operation sequence.
 func (w *world) failPool(v string) {
-	rep := map[string]interface{}{"pool_after": w.dump(), "settled": w.settled}
+	rep := map[string]interface{}{"pool_after": w.dump()}
 	ops := append([]string(nil), w.ops...)
 	if w.known != "" {
 		rep["named_sender_txs"] = "the transaction removed last has an account *name* in its sender field; it was filed under its verified address"
@@ -1442,7 +1442,7 @@ func main() {
 	var g [nAcc]acct
 	gen := w.mkBlock(nil, nil, nil, 1, &g)
 	w.mp.VerifInit(gen.b)
-	w.bareRandom(run.Pick(1500, 6000), 40)
+	w.bareRandom(run.Pick(2000, 15000), 40)
 	if run.Thorough() {
 		w.bareEnumerate(5, 4)
 	} else {
@@ -1451,10 +1451,10 @@ func main() {
 	// pool level
 	w.safely("session", w.namedSenderMinimal)
 	w.safely("session", w.reorgWindow)
-	for s := 0; s < run.Pick(700, 4000); s++ {
+	for s := 0; s < run.Pick(1000, 12000); s++ {
 		n := 60 + w.rng.Intn(120)
 		w.safely("session", func() { w.poolSession(n) })
 	}
 	// concurrency: support only
-	w.safely("session", func() { w.concurrent(run.Pick(10, 100)) })
+	w.safely("session", func() { w.concurrent(run.Pick(10, 200)) })
 }
